@@ -32,9 +32,9 @@ ALPHA = {
 }
 
 LETTERS = [
-    ['declare', 2], ['add_var', 3, 1], ['add_var', 0, 2], ['add_var', 3, 2],
-    ['build', 0b0110, 0, 1], ['var', 1, 1], ['drop', 0], ['gc'],
-    ['swap', 0, 0], ['undeclare', 0], ['undeclare', 0b10],
+    ['declare', 3], ['add_var', 3, 1], ['add_var', 0, 2],
+    ['build', 0b01100110, 0, 1], ['var', 2, 1], ['var', 1, 1], ['drop', 0],
+    ['gc', 0], ['swap', 0, 0], ['undeclare', 0], ['undeclare', 0b10],
     ['undeclare', 0b101],
 ]
 
@@ -47,13 +47,16 @@ def plan(tier, seed):
     cfgs = [dict(kind='bdd', nmax=6, init_vars=3, semantic=False),
             dict(kind='bdd', nmax=5, init_vars=0),
             dict(kind='bdd', nmax=4, init_vars=4),
-            dict(kind='autoref', nmax=5, init_vars=2)]
+            dict(kind='autoref', nmax=5, init_vars=2),
+            # many variables, few used levels (level maps with holes)
+            dict(kind='bdd', nmax=10, init_vars=9, semantic=False),
+            dict(kind='bdd', nmax=12, init_vars=10, semantic=False)]
     specs = []
     for s in range(16 if tier == 'thorough' else 10):
         specs.append(dict(kind='random', seed=seed * 1000 + s, cfgs=cfgs,
                           examples=1500 if tier == 'thorough' else 250,
                           min_len=6, max_len=40))
-    specs += H.exhaustive_plan(dict(kind='bdd', nmax=4, init_vars=2),
+    specs += H.exhaustive_plan(dict(kind='bdd', nmax=4, init_vars=3),
                                LETTERS, 5 if tier == 'thorough' else 4, seed)
     return specs
 
